@@ -129,15 +129,13 @@ event bus does shut the socket down — an event caused by the *volume* of other
 theorem bus_lag_shuts_down (self : Nat) : handleEvent self .busLagged = .shutDown := by
   simp [handleEvent, Gen.busLagShutsSocketDown]
 
--- the delay is really waited ----------------------------------------------------------------------------------------------------------------
+-- is the delay really waited? ----------------------------------------------------------------------------------------------------------------
 
-/-- however many system events of OTHER sockets arrive while a connecter waits for its next attempt, and whenever they
-arrive: the attempt starts after exactly the scheduled delay (the schedule of `connDelay` is what happens, not just what is
-computed) -/
-theorem retry_delay_is_waited_out (delay : Nat) (evs : List (Nat × WaitEv)) (h : ∀ e ∈ evs, e.2 = .unrelated) :
-    retryWait (Gen.connecterWaitsOutItsDelay == 1) delay evs = some delay := by
-  have hg : (Gen.connecterWaitsOutItsDelay == 1) = true := by decide
-  rw [hg]
+/-- a connecter that ignores the system events of other sockets while it waits starts its next attempt after exactly the
+scheduled delay, however many such events arrive and whenever (what the schedule of `connDelay` needs in order to be what
+happens, not just what is computed) -/
+theorem retry_delay_is_waited_out_if_unrelated_events_are_ignored (delay : Nat) (evs : List (Nat × WaitEv))
+    (h : ∀ e ∈ evs, e.2 = .unrelated) : retryWait true delay evs = some delay := by
   induction evs with
   | nil => rfl
   | cons e rest ih =>
@@ -147,8 +145,13 @@ theorem retry_delay_is_waited_out (delay : Nat) (evs : List (Nat × WaitEv)) (h 
     simp only [retryWait, if_true]
     exact ih (fun e he => h e (by simp [he]))
 
-/-- the earlier shape: the first event of any other socket ended the wait - with a busy context the retries came as fast as
-the events -/
-theorem any_event_used_to_end_the_wait : retryWait false 300 [(5, .unrelated)] = some 5 := by decide
+/-- the code as it is (flag re-extracted on every run): the first event of ANY other socket of the context ends the wait -
+in a busy context the retries come as fast as the events, far below RECONNECT_IVL. The full statement of the property ("delays
+that start at RECONNECT_IVL") is therefore FALSE for the current sources; this is the known finding
+C17:retry-wait-cut-short-by-unrelated-events, replayed on every run (a repair was made and withdrawn: a pinned test of the
+repository relies on the early wake-up) -/
+theorem current_code_cuts_the_wait_short :
+    Gen.connecterWaitsOutItsDelay = 0 ∧ retryWait (Gen.connecterWaitsOutItsDelay == 1) 300 [(5, .unrelated)] = some 5 := by
+  decide
 
 end Rzmq.C17
